@@ -21,6 +21,8 @@ type DriveOpts struct {
 	Double   int  // schedules with a second crash during catch-up, per chain
 	Workers  int
 	Views    bool
+	// the first Big chains contain one BIG block of BigMin..BigMax Ethereum txs; every crash point of that block is run
+	Big, BigMin, BigMax int
 }
 
 // Stats of a run.
@@ -31,6 +33,8 @@ type Stats struct {
 	ViewShapes                                                     map[string]bool // distinct block shapes with >= 1 admitted Ethereum tx seen through the RPC views
 	GoMismatch                                                     int
 	Stuck                                                          []string
+	BigBlocks                                                      []int // Ethereum txs per big block
+	BigCrashPoints                                                 int   // crash points enumerated inside big blocks
 }
 
 // ChainEvent is the first line of a chain's trace: the consensus facts of every block.
@@ -69,18 +73,45 @@ func Drive(out *trace.W, o DriveOpts) Stats {
 	for ci := 0; ci < o.Chains; ci++ {
 		tbl := prog.NewTable()
 		tid := fmt.Sprintf("c%d_%d", o.Seed, ci)
-		g := NewGen(o.Seed*1000003+int64(ci), tid, tbl)
+		g := NewGenMaxGas(o.Seed*1000003+int64(ci), tid, tbl, ci < o.Big)
 		n := NewNames(g.W.U)
 		gens := map[int64][]GenTx{}
 		baseFees := map[int64]int64{1: g.W.C.BaseFee().Int64()}
-		for b := 0; b < o.Blocks; b++ {
+		big := ci < o.Big
+		bigH := int64(0)
+		nBlocks := o.Blocks
+		if big {
+			nBlocks = 3 // small (until one Ethereum tx executed), BIG, small: the big block dominates the cost of every schedule
+		}
+		indexedSomething := false // big chains: the index must not be empty when the big block is reached (else D21 explains every crash)
+		for b := 0; b < nBlocks; b++ {
 			bf := g.W.C.BaseFee().Int64()
-			rb, txs, ok := g.NextBlock(o.MaxTxs)
+			var rb *RecBlock
+			var txs []GenTx
+			var ok bool
+			if big && bigH == 0 && !indexedSomething && b >= 1 && b < 6 {
+				nBlocks++ // one more small block in front
+			}
+			if big && bigH == 0 && (indexedSomething || b >= 6) {
+				nBig := o.BigMin + g.R.Intn(o.BigMax-o.BigMin+1)
+				rb, txs, ok = g.BigBlock(nBig)
+				if ok {
+					bigH = rb.H
+					st.BigBlocks = append(st.BigBlocks, nBig)
+				}
+			} else {
+				rb, txs, ok = g.NextBlock(o.MaxTxs)
+			}
 			if !ok {
 				break
 			}
 			gens[rb.H] = txs
 			baseFees[rb.H] = bf
+			for i, t := range txs {
+				if t.Eth && rb.Res.TxResults[i].Code == 0 {
+					indexedSomething = true
+				}
+			}
 		}
 		r := g.Rec
 		ce := ChainEvent(g, n, tid, gens, baseFees)
@@ -112,9 +143,31 @@ func Drive(out *trace.W, o DriveOpts) Stats {
 			rr.Shuffle(len(pts), func(i, j int) { pts[i], pts[j] = pts[j], pts[i] })
 			pts = pts[:o.Sample]
 		}
+		var bigDouble []Sched
+		if bigH > 0 {
+			// EVERY crash point of the big block: before each of its physical operations (as the uninterrupted run
+			// issued them - an indexer flushing several times per block simply shows more operations here) and right after the last
+			lo, hi := opsOfBlock(base.Events, bigH)
+			have := map[int]bool{}
+			for _, k := range pts {
+				have[k] = true
+			}
+			for k := lo; k <= hi+1 && k <= nOps; k++ {
+				if !have[k] {
+					pts = append(pts, k)
+				}
+				st.BigCrashPoints++
+			}
+			if hi > lo+2 {
+				// two crashes inside the big block
+				k1 := lo + 1 + rr.Intn(hi-lo-1)
+				bigDouble = append(bigDouble, Sched{ID: fmt.Sprintf("%s/bigdie%d+%d", tid, k1, 2), Start: 1, Tip: r.Last, Die: []int{k1, 1 + rr.Intn(hi-lo), 0}, Mode: "service"})
+			}
+		}
 		for _, k := range pts {
 			scheds = append(scheds, Sched{ID: fmt.Sprintf("%s/die%d", tid, k), Start: 1, Tip: r.Last, Die: []int{k, 0}, Mode: "service"})
 		}
+		scheds = append(scheds, bigDouble...)
 		for d := 0; d < o.Double && nOps > 2; d++ {
 			k1 := 1 + rr.Intn(nOps)
 			k2 := 1 + rr.Intn(nOps)
@@ -210,6 +263,7 @@ func Drive(out *trace.W, o DriveOpts) Stats {
 			}
 			for _, indexed := range []bool{true, false} {
 				v := NewViews(r, n, indexed)
+				v.Sample = big
 				for _, ev := range v.QueryAll() {
 					out.Emit(ev)
 					st.RpcQueries++
@@ -219,6 +273,27 @@ func Drive(out *trace.W, o DriveOpts) Stats {
 	}
 	st.Events = out.N
 	return st
+}
+
+// opsOfBlock: first and last physical operation number (1-based) issued while block h was being indexed.
+func opsOfBlock(evs []trace.M, h int64) (lo, hi int) {
+	op := 0
+	var cur int64
+	for _, ev := range evs {
+		switch ev["ev"] {
+		case "IndexBlock":
+			cur = ev["h"].(int64)
+		case "PhysWrite", "Flush":
+			op++
+			if cur == h {
+				if lo == 0 {
+					lo = op
+				}
+				hi = op
+			}
+		}
+	}
+	return lo, hi
 }
 
 // blockAtCrash: height being indexed at the first crash and the number of physical writes issued in its batch.
